@@ -84,8 +84,12 @@ def cases(draw, tier="quick"):
     if draw(st.integers(0, 2)) == 0:
         ups = draw(st.lists(st.sampled_from(["http://x/", "http://x/a_", "http://y#", "x", "https://w3.org/",
                                              # prefixes that end INSIDE an alphanumeric identifier (longer than the prefix discover would guess)
-                                             "http://x/a", "http://x/A", "http://x/a_b/0", "http://y#b#a", "http://x#1"]), unique=True, min_size=1, max_size=3))
+                                             "http://x/a", "http://x/A", "http://x/a_b/0", "http://y#b#a", "http://x#1", "http://z/q/E", "http://z/q#E", "http://z/q_E"]), unique=True, min_size=1, max_size=3))
         conv = [{"prefix": f"k{i}", "uri_prefix": u, "prefix_synonyms": [], "uri_prefix_synonyms": [], "pattern": None} for i, u in enumerate(ups)]
+        # URIs the supplied converter recognises (they must contribute nothing - neither a prefix nor to a cutoff count)
+        for u in ups:
+            for _ in range(draw(st.integers(0, 2))):
+                uris.append(u + draw(st.sampled_from(["1", "22", "abc", "A1", "x9"])))
     perm = list(draw(st.permutations(range(len(uris))))) if len(uris) > 1 else list(range(len(uris)))
     dup = draw(st.lists(st.integers(0, max(0, len(uris) - 1)), max_size=3)) if uris else []
     return {"uris": uris, "delimiters": delimiters, "cutoff": cutoff, "metaprefix": metaprefix, "converter": conv, "perm": perm, "dup": dup,
